@@ -12,7 +12,9 @@ RULE = (
     "numpy/pandas/list rendering with default/shuffled/string index).  Forced shapes: a group whose values are "
     "all null, block-confined groups, sorted prefix, single group, all keys null, all-false mask.  A case is "
     "non-trivial when it has >= 2 groups and at least one of: an all-null group, first-appearance order that is "
-    "not ascending, a mask that empties a group, a null key.  Distinct = distinct case hash."
+    "not ascending, a mask that empties a group, a null key.  A `realscale` sub-check adds 1M-2M row inputs on keys that "
+    "stay contiguous (categorical, two keys, sorted) with a group confined to the tail / to blocks, against a NumPy "
+    "reference (groups of any size: the library switches to several threads there).  Distinct = distinct case hash."
 )
 ORACLE = ("independent pure-Python model: group selected rows by key tuple, reduce non-null values with exact "
           "arithmetic; label set compared in both directions; values exact (selections, counts, integer/temporal "
@@ -102,7 +104,102 @@ def check(case, ctx, sub="reduce"):
         raise Violation("index:nlevels", f"{res.index.nlevels} levels for {len(case['keys'])} keys")
 
 
+# ---- groups of any size: a few real-scale cases on keys that stay contiguous (categorical / several keys / sorted),
+# where the library switches to several threads from 1,000,000 rows -----------------------------------------------
+@st.composite
+def big_case(draw, variant):
+    return {"n": draw(st.sampled_from([999_999, 1_000_000, 1_000_001, 2_000_003])),
+            "keykind": draw(st.sampled_from(["categorical", "two_keys", "sorted"])),
+            "structure": draw(st.sampled_from(["tail_group", "blocks", "uniform"])),
+            "op": draw(st.sampled_from(["sum", "mean", "min", "max", "first", "last", "count", "size"])),
+            "vkind": draw(st.sampled_from(["float_nan", "int", "bool", "uint8"])),
+            "mask": draw(st.sampled_from(["none", "none", "bool3", "slice_tail"])), "salt": draw(st.integers(0, 3))}
+
+
+def big_check(case, ctx):
+    import numpy as np
+    import pandas as pd
+
+    from groupby_lib import GroupBy
+
+    n, g = case["n"], 5
+    i = np.arange(n, dtype=np.int64)
+    if case["structure"] == "tail_group":
+        k = (i * (7 + case["salt"])) % (g - 1)
+        k[-max(10, n // 100):] = g - 1
+    elif case["structure"] == "blocks":
+        k = np.sort((i * 13) % g)[::-1].copy()
+    else:
+        k = (i * (2654435761 + case["salt"])) % 1000003 % g
+    if case["keykind"] == "sorted":
+        k = np.sort(k)
+    if case["vkind"] == "float_nan":
+        v = (((i * 17 + case["salt"]) % 4097) - 2048).astype(float) / 8.0
+        v[(i % 7) == 2] = np.nan
+        v[:n // 2][k[:n // 2] == k[0]] = np.nan
+    elif case["vkind"] == "int":
+        v = ((i * 31) % 2001 - 1000).astype(np.int64)
+    elif case["vkind"] == "bool":
+        v = ((i * 7) % 3 == 0)
+        v[k == k[-1]] = True
+    else:
+        v = ((i * 5) % 200 + 1).astype(np.uint8)
+    mask = None if case["mask"] == "none" else ((i % 3) != 1 if case["mask"] == "bool3" else slice(n - n // 50, None))
+    labels = np.array(["e", "d", "c", "b", "a"])
+    if case["keykind"] == "categorical":
+        keys = pd.Categorical.from_codes(k.astype("int8"), categories=list(labels))
+        lab_of = lambda c: (labels[c],)
+    elif case["keykind"] == "two_keys":
+        keys = [k // 2, k % 2]
+        lab_of = lambda c: (int(c // 2), int(c % 2))
+    else:
+        keys = k
+        lab_of = lambda c: (int(c),)
+    gb = GroupBy(keys)
+    res = gbops.call(gb, case["op"], v, mask)
+    ctx.seen("realscale", case, case["structure"] != "uniform", [f"big:n:{n}", f"big:key:{case['keykind']}", f"big:op:{case['op']}", f"big:v:{case['vkind']}"])
+    sel = np.ones(n, bool) if mask is None else (mask if isinstance(mask, np.ndarray) else None)
+    if sel is None:
+        sel = np.zeros(n, bool)
+        sel[mask] = True
+    got = dict(zip(data.index_labels(res.index), data.series_values(res)))
+    exp = {}
+    vf = v.astype(float)
+    for c in range(g):
+        rows = np.nonzero(sel & (k == c))[0]
+        if not len(rows):
+            continue
+        x = vf[rows]
+        nn = x[~np.isnan(x)]
+        op = case["op"]
+        if op == "size":
+            e = float(len(rows))
+        elif op == "count":
+            e = float(len(nn))
+        elif op == "sum":
+            e = float(nn.sum())
+        elif op == "mean":
+            e = float(nn.mean()) if len(nn) else None
+        elif op in ("min", "max"):
+            e = (float(nn.min()) if op == "min" else float(nn.max())) if len(nn) else None
+        else:
+            e = (float(nn[0]) if op == "first" else float(nn[-1])) if len(nn) else None
+        exp[lab_of(c)] = e
+    if set(exp) != set(got):
+        raise Violation(f"big:labels:{case['op']}", f"{sorted(exp, key=repr)} vs {sorted(got, key=repr)}")
+    for lab, e in exp.items():
+        g_ = got[lab]
+        g_ = None if g_ is None else float(g_)
+        if case["vkind"] in ("bool",) and e is None:
+            continue
+        ok = (e is None and g_ is None) or (e is not None and g_ is not None and abs(e - g_) <= 1e-9 * max(1.0, abs(e)))
+        if not ok:
+            raise Violation(f"big:value:{case['op']}", f"label {lab}: numpy {e!r} library {g_!r} ({case})")
+
+
 SUBS = [
+    Sub("realscale", big_check, strategy=lambda tier, variant: big_case(variant), variants=("-",), examples=(32, 400), replicas=(2, 8),
+        cost={"-": 120}),
     Sub("reduce", check, strategy=lambda tier, variant: case_strategy(variant), variants=tuple(VARIANTS),
         examples=(6000, 120000), replicas=(4, 16), cost={v: 200 for v in VARIANTS}),
 ]
